@@ -28,7 +28,8 @@ CLAIMED = {
         "is 1 if x is a job else 0) proved preserved, for all tables and arguments, by every operation under contract: _clear_dead_jobs "
         "(removes exactly the finished jobs from both structures), get_next_job_number (lowest free number >= 1, with a termination "
         "variant), add_job, get_next_task, resume_job (fg/bg selection: no argument, +, -, number; errors leave the table alone; MRU "
-        "update keeps the order of the rest), bg, disown_fn (no argument or one number), plus the thread-view functions get_tasks / "
+        "update keeps the order of the rest), bg, disown_fn (no argument or one number), jobs (the listing prints exactly the most-recently-used order after the finished jobs are purged: every live job once, "
+        "no finished one - loop invariant), plus the thread-view functions get_tasks / "
         "get_jobs / use_main_jobs (with-contract: body runs on the main table, previous view restored on normal and exceptional exit). "
         "The same contracts are evaluated natively on all tables over job numbers 1..3 as an engine cross-check.",
    note="Unverified: truly concurrent mutation (signal handler / second thread between two statements), the real process state behind "
@@ -75,11 +76,11 @@ CLAIMED = {
         "exception escapes (exhaustive path enumeration; no-exception obligations). should_use_cache equals the documented switch truth "
         "table; update_cache writes version line, python line, payload in that order and nothing when not writable; run_script_with_cache "
         "/ run_code_with_cache touch the cache only when switched on, run exactly one code object, name code entries by the digest of the "
-        "text only; _cache_renamer keys script entries by the file's real path. Bounded stand-in: real writer -> real readers on real "
+        "text only; _cache_renamer keys script entries by the file's real path; the import hook (XonshImportHook.get_code) hands the import machinery either an entry script_cache_check accepted or the "
+        "compilation of the module's CURRENT source - always a code object - and raises ImportError exactly for an unknown module. Bounded stand-in: real writer -> real readers on real "
         "files, every truncation point and 5 corruptions.",
    note="Assumed: md5 injective; the compiler as an uninterpreted function C(filename, text, mode); the equal-mtime window (>= keeps an "
-        "entry written in the same timestamp tick); os.stat of an existing path does not fail during the call; imphooks module cache and "
-        "marshal format stability not verified. Two genuine defects found and repaired (fix: cda8cf0). Trusted: pyvc engine + models + z3/cvc5.",
+        "entry written in the same timestamp tick); os.stat of an existing path does not fail during the call; marshal format stability not verified. Two genuine defects found and repaired (fix: cda8cf0). Trusted: pyvc engine + models + z3/cvc5.",
    design="§3 C19"),
  "C13": dict(
    category="proof",
@@ -189,12 +190,14 @@ CLAIMED = {
         "length of the text and every child is told the absolute position at which its text really starts (loop invariants j == offset + "
         "len(s)); json.dumps only in its ASCII mode (any other keyword fails a call precondition). Reading: LJNode._getitem_sequence reads the table entry of "
         "element k (negative keys from the end), raises IndexError IFF the key is outside [-len, len) and never reaches the trailing whole-sequence entry; __len__ is the table "
-        "length minus that entry. Bounded stand-ins (not proved): real "
+        "length minus that entry. SQLite backend, in-memory side (SqliteHistory.append): an excluded command (ignore rule, ignoredups / ignoreerr / ignorespace) changes nothing and is not stored; a kept one goes last in "
+        "every one of the five parallel session lists with its own values (text minus trailing whitespace only), the lists stay parallel, it is sent to the store exactly once, and a store error is reported, never raised. "
+        "Bounded stand-ins (not proved): real "
         "writer -> UTF-8 file -> real LazyJSON on Unicode documents; real JsonHistory on every sequence of 4 (thorough 5) append/flush "
         "operations x 3 HISTCONTROL settings x 3 buffer sizes against the list of appended commands (len, every in/out-of-range index, "
         "slice, iteration).",
    note="Two genuine defects repaired (fix: ce6c11e: history keys below -len read the on-disk offsets table from the end; d82f7bb: LazyJSON sequence nodes returned the whole list for [-1] and [len]). Unverified: the "
-        "SQLite backend, flusher/reader thread interleavings (the FIFO ticket queue is ASSUMED to make a reader run after every earlier "
+        "SQLite backend's SQL (executed by the database engine) and its readers (items / all_items), flusher/reader thread interleavings (the FIFO ticket queue is ASSUMED to make a reader run after every earlier "
         "flusher; flushers are joined in the bounded check), which index entry is stored under which key (abstracted container statements; "
         "bounded check only), termination of the writer's recursion, LazyJSON._load_index / LJNode reads (bounded only), BaseShell history "
         "entry creation, slices through __getitem__ (bounded only), `history clear`. Trusted: pyvc engine + models + z3.",
